@@ -1149,9 +1149,12 @@ def realclock_engine(pid, spec, tier, seed, workdir, res):
         res['nontrivial'].add(hashlib.sha1(line.encode()).hexdigest())
         v = line.split()[-1]
         res['distribution']['realclock:' + v] = res['distribution'].get('realclock:' + v, 0) + 1
-        if v == 'BAD' and not known_open(pid, 'C01:saturated-age-served', known):
+        if v == 'BAD' and pid == 'C01' and not known_open(pid, 'C01:saturated-age-served', known):
             res['violations'].append(dict(kind='monitor', code='C01:saturated-age-served', case='realclock',
                                           payload=dict(experiment=line.strip(), how='harness/realclock_test.go TestRealClock: GET (stored with a saturating Age), GET; real clock, memcache')))
+        if v == 'BADAGE' and pid == 'C11' and not known_open(pid, 'C11:saturated-age-field', known):
+            res['violations'].append(dict(kind='monitor', code='C11:saturated-age-field', case='realclock',
+                                          payload=dict(experiment=line.strip(), how='harness/realclock_test.go TestRealClock: GET (stored with a saturating Age), GET allowing any staleness; real clock, memcache; the Age field of the answer from the store must be at least 2^31')))
 
 
 def build_race_harness():
@@ -1405,6 +1408,9 @@ def case_payload(v):
     cases, _ = load_cases(os.path.join(d, 'cases.txt'))
     cid = v['case']
     pl = dict(case_id=cid, profile=v.get('profile'), case=cases.get(cid, ''))
+    m = re.match(r'^[a-z]+-\d+-(\d+)', cid or '')
+    if m:
+        pl['logger'] = ('debug-level slog logger into io.Discard (WithLogger)' if int(m.group(1)) % 2 == 1 else 'default (discard) logger')
     for nm in ('impl', 'model', 'mon_impl'):
         p = os.path.join(d, nm + '.txt')
         if os.path.exists(p):
